@@ -137,6 +137,22 @@ def idl_dlm(txt):
     return [[m.group(1).upper(), m.group(2), m.group(3), m.group(4)] for m in re.finditer(r"^(FUNCTION|PROCEDURE)\s+(\w+)\s+(\d+)\s+(\d+)", txt, flags=re.M)]
 
 
+def idl_glue(txt):
+    """instantiations of the glue macros in idl/xraylib_idl.c:  XRL_3IIF(CS_FluorLine)  ->  ["CS_FluorLine", "3", "IIF"]  (I int, F double, S string)"""
+    txt = strip_comments(txt)
+    return [[m.group(3), m.group(1), m.group(2)] for m in re.finditer(r"^\s*XRL_(\d+)([IFS]+)\s*\(\s*(\w+)\s*\)", txt, flags=re.M)]
+
+
+def swig_apply(txt):
+    """%apply <type> *OUTPUT { <type> <name>, ... }  ->  [[type, name], ...]: SWIG attaches the typemap to parameters of exactly that type AND name"""
+    res = []
+    for m in re.finditer(r"%apply[^{]*\{([^}]*)\}", txt):
+        for a in m.group(1).split(","):
+            toks = a.replace("*", " * ").split()
+            if len(toks) >= 2: res.append([re.sub(r"\s*\*\s*", "*", " ".join(toks[:-1])), toks[-1]])
+    return res
+
+
 def libtool(txt, pats):
     return [(re.search(p, txt, flags=re.M).group(1) if re.search(p, txt, flags=re.M) else "") for p in pats]
 
@@ -153,7 +169,7 @@ def run(repo, root, out):
     idl = []
     for f in ["xraylib.pro", "xraylib_lines.pro", "xraylib_shells.pro", "xraylib_auger.pro", "xraylib_nist_compounds.pro", "xraylib_radionuclides.pro"]:
         idl += consts_idl(R("idl", f))
-    b["idl"] = {"consts": idl, "dlm": idl_dlm(R("idl", "libxrlidl.dlm"))}
+    b["idl"] = {"consts": idl, "dlm": idl_dlm(R("idl", "libxrlidl.dlm")), "glue": idl_glue(R("idl", "xraylib_idl.c"))}
     jc, jd = consts_java(R("java", "Xraylib.java"))
     b["java"] = {"consts": jc, "decl": jd}
     pxd = R("python", "xraylib_np_c.pxd")
@@ -162,6 +178,7 @@ def run(repo, root, out):
     b["java_datafile"] = {"written": re.findall(r"\b(AVOGNUM|KEV2ANGST|MEC2|RE2|R_E|ZMAX|SHELLNUM\w*|LINENUM|TRANSNUM|AUGERNUM)\b", strip_comments(R("java", "pr_data_java.c")))}
     # C++ header and SWIG interface take the constants from the C headers by inclusion
     b["cxx"] = {"includes": re.findall(r'#\s*include\s*[<"]([\w\-./+]+)[>"]', R("cplusplus", "xraylib++.h"))}
+    b["swig_apply"] = swig_apply(R("src", "xraylib.i"))
     b["swig"] = {"includes": re.findall(r'%include\s*"([\w\-./]+)"', R("src", "xraylib.i")) + re.findall(r'#\s*include\s*"([\w\-./]+)"', R("src", "xraylib.i"))}
     dump(b, os.path.join(out, "bindings.json"))
     vers = []
